@@ -314,13 +314,14 @@ func vfC03GenCfg(rt *rapid.T, thorough bool) *vfxCfg {
 	c.ByHostName = rapid.Bool().Draw(rt, "by-hostname")
 	c.KeepHost = rapid.IntRange(0, 2).Draw(rt, "keephost") == 0
 	c.Compression = rapid.SampledFrom([]int{-1, -1, 0, 100, 10000}).Draw(rt, "compression")
-	c.ReqAdaptor = rapid.SampledFrom([]string{"", "", "", "body", "compress", "decompress"}).Draw(rt, "reqadaptor")
-	c.RespAdaptor = rapid.SampledFrom([]string{"", "", "", "body", "compress", "decompress"}).Draw(rt, "respadaptor")
+	// body and compress may be configured together: the replacement body is then what gets compressed
+	c.ReqAdaptor = rapid.SampledFrom([]string{"", "", "", "body", "compress", "decompress", "body+compress"}).Draw(rt, "reqadaptor")
+	c.RespAdaptor = rapid.SampledFrom([]string{"", "", "", "body", "compress", "decompress", "body+compress", "body+compress"}).Draw(rt, "respadaptor")
 	bodies := []string{"x", "replaced body", "{\"k\": [1, 2, 3], \"s\": \"v\"}", strings.Repeat("0123456789abcdef", 40)}
-	if c.ReqAdaptor == "body" {
+	if strings.HasPrefix(c.ReqAdaptor, "body") {
 		c.ReqAdaptorBody = rapid.SampledFrom(bodies).Draw(rt, "reqadaptor-body")
 	}
-	if c.RespAdaptor == "body" {
+	if strings.HasPrefix(c.RespAdaptor, "body") {
 		c.RespAdaptorBody = rapid.SampledFrom(bodies).Draw(rt, "respadaptor-body")
 	}
 	if rapid.IntRange(0, 2).Draw(rt, "req-stream") == 0 {
@@ -497,6 +498,14 @@ func vfC03CheckRequest(c *vfxCfg, q *vfC03Req, rig *vfxRig, seen []*vfxSeen, res
 		if len(ce) != 0 {
 			return &vfC03Verdict{"req-body", fmt.Sprintf("RequestAdaptor replaced the body but Content-Encoding %q still reached the backend", ce)}
 		}
+	case c.ReqAdaptor == "body+compress":
+		if !vfC03Eq(ce, []string{"gzip"}) {
+			return &vfC03Verdict{"req-body", fmt.Sprintf("RequestAdaptor body=%q compress=gzip: backend saw Content-Encoding %q", c.ReqAdaptorBody, ce)}
+		}
+		got, err := vfxGunzip(s.Body)
+		if err != nil || !bytes.Equal(got, []byte(c.ReqAdaptorBody)) {
+			return &vfC03Verdict{"req-body", fmt.Sprintf("RequestAdaptor body=%q compress=gzip: gunzip(backend body) = %s (err %v)", c.ReqAdaptorBody, vfxBrief(got), err)}
+		}
 	case c.ReqAdaptor == "compress" && !q.Gzip:
 		if !vfC03Eq(ce, []string{"gzip"}) {
 			return &vfC03Verdict{"req-body", fmt.Sprintf("RequestAdaptor compress=gzip: backend saw Content-Encoding %q", ce)}
@@ -623,7 +632,7 @@ func vfC03CheckResponse(c *vfxCfg, q *vfC03Req, p *vfC03Resp, resp *vfxResponse,
 		return nil
 	}
 	want := p.plainBody()
-	if c.RespAdaptor == "body" {
+	if strings.HasPrefix(c.RespAdaptor, "body") {
 		want = []byte(c.RespAdaptorBody)
 	}
 	got := resp.Body
@@ -671,7 +680,7 @@ func vfC03CheckCut(c *vfxCfg, q *vfC03Req, p *vfC03Resp, resp *vfxResponse, vf *
 		return nil
 	}
 	want := p.plainBody()
-	if c.RespAdaptor == "body" {
+	if strings.HasPrefix(c.RespAdaptor, "body") {
 		want = []byte(c.RespAdaptorBody)
 	}
 	got := resp.Body
@@ -732,6 +741,13 @@ func vfC03CompressApplies(c *vfxCfg, q *vfC03Req, p *vfC03Resp) bool {
 	return c.Compression >= 0 && vfC03AcceptGzipPerDocs(q) && !gz && (n == -1 || n >= c.Compression)
 }
 
+// vfC03GzipLabelledBehindProxy: the response the Proxy publishes carries Content-Encoding: gzip (the
+// backend's own label survived the transport, or proxy compression applied).
+func vfC03GzipLabelledBehindProxy(c *vfxCfg, q *vfC03Req, p *vfC03Resp) bool {
+	gz, _ := vfC03AfterTransport(q, p)
+	return gz || vfC03CompressApplies(c, q, p)
+}
+
 // vfC03CompressTrigger: proxy compression applies to a response whose length the backend declared, in buffered mode.
 func vfC03CompressTrigger(c *vfxCfg, q *vfC03Req, p *vfC03Resp) bool {
 	_, n := vfC03AfterTransport(q, p)
@@ -745,7 +761,7 @@ func vfC03CompressStreamTrigger(c *vfxCfg, q *vfC03Req, p *vfC03Resp) bool {
 
 // vfC03RABodyTrigger: ResponseAdaptor replaces a body whose (different) length the backend declared.
 func vfC03RABodyTrigger(c *vfxCfg, q *vfC03Req, p *vfC03Resp) bool {
-	if c.RespAdaptor != "body" || p.Status == 204 || p.Status == 304 || q.Method == "HEAD" {
+	if !strings.HasPrefix(c.RespAdaptor, "body") || p.Status == 204 || p.Status == 304 || q.Method == "HEAD" {
 		return false
 	}
 	_, n := vfC03AfterTransport(q, p)
@@ -930,7 +946,9 @@ func TestVerifC03Forward(t *testing.T) {
 					"backend-cuts-body": p.Cut, "backend-cuts-body-stream": p.Cut && vfC03RespStream(cfg), "backend-cuts-body-stream-recoded": p.Cut && vfC03RespStream(cfg) && (cfg.RespAdaptor != "" || vfC03CompressApplies(cfg, &q, &p)),
 					"mirrorPool": cfg.Mirror, "mirrored-request": mirrored, "mirrored-request-with-body": mirrored && q.BodyN > 0, "mirrored-stream-request-with-body": mirrored && q.BodyN > 0 && vfC03ReqStream(cfg),
 					"mirrored-request:copy-seen-by-mirror-server": mirrored && len(rig.mirrored()) > 0, "mirrored-request:copy-not-seen-within-join-wait": mirrored && len(seen) > 0 && len(rig.mirrored()) == 0,
-					"failureCodes-configured": len(cfg.FailureCodes) > 0, "failureCodes-without-retry-policy": len(cfg.FailureCodes) > 0 && cfg.RetryAttempts == 0,
+					"respadaptor-replaces-gzip-labelled-body":           strings.HasPrefix(cfg.RespAdaptor, "body") && !failFinal && q.Method != "HEAD" && p.Status != 204 && p.Status != 304 && vfC03GzipLabelledBehindProxy(cfg, &q, &p),
+					"respadaptor-body+compress-over-gzip-labelled-body": cfg.RespAdaptor == "body+compress" && !failFinal && q.Method != "HEAD" && p.Status != 204 && p.Status != 304 && vfC03GzipLabelledBehindProxy(cfg, &q, &p),
+					"failureCodes-configured":                           len(cfg.FailureCodes) > 0, "failureCodes-without-retry-policy": len(cfg.FailureCodes) > 0 && cfg.RetryAttempts == 0,
 					"failure-code-final-answer": failFinal, "failure-code-final-answer-with-body": failFinal && p.BodyN > 0 && q.Method != "HEAD", "failure-code-final-answer-with-headers": failFinal && len(p.E2E) > 0,
 					"failure-code-final-answer-retried": failFinal && len(seen) > 1, "failure-code-final-answer-respadaptor-skipped": failFinal && cfg.RespAdaptor != "",
 					"memoryCache-head-and-get-of-one-url": repMethods != nil, "memoryCache-get-after-head-of-same-url": prevMethod == "HEAD" && q.Method == "GET", "memoryCache-head-after-get-of-same-url": prevMethod == "GET" && q.Method == "HEAD",
